@@ -2,6 +2,7 @@ CONSTANTS
   N = 2
   MaxTasks = 3
   G = 1
+  Stops = 1
   Dev = {}
 SPECIFICATION Spec
 CHECK_DEADLOCK FALSE
